@@ -247,12 +247,16 @@ class TrimeshBoundary(BoundaryDomain):
     def sample_random_uniform(
         self, n=None, d=None, params=Points.empty(), device="cpu"
     ):
+        if d:  # the density refers to the area of the surface, not to the volume
+            n, d = self.compute_n_from_density(d, params), None
         n = self.domain._compute_number_of_points(n, d, params)
         points = trimesh.sample.sample_surface(self.domain.mesh, n)[0]
         tensor_points = torch.tensor(points, device=device, dtype=torch.float32)
         return Points(tensor_points, self.space)
 
     def sample_grid(self, n=None, d=None, params=Points.empty(), device="cpu"):
+        if d:  # the density refers to the area of the surface, not to the volume
+            n, d = self.compute_n_from_density(d, params), None
         n = self.domain._compute_number_of_points(n, d, params)
         points = trimesh.sample.sample_surface_even(self.domain.mesh, n)[0]
         points = torch.tensor(points, device=device, dtype=torch.float32)
